@@ -177,6 +177,7 @@ class World:
         self.pruned_all = False
         self.orphans = set()
         self.tick_log: List[str] = []
+        self.fault_log: List[tuple] = []      # (index of the action in the trace, kind of injected fault)
         self.seen_handles: Dict[int, int] = {}
         self.hist: Dict[str, int] = {}
 
@@ -258,6 +259,7 @@ class World:
             cb['fut'].set_result(c)
             cb['conn'] = c
             return c
+        self.fault_log.append((len(self.trace) - 1, 'connect-3d000' if outcome == '3d' else 'connect-failure'))
         cb['fut'].set_exception(BackendError('connect failed', '3D000' if outcome == '3d' else None))
         return None
 
@@ -270,6 +272,9 @@ class World:
         if ok:
             cb['fut'].set_result(None)
         else:
+            kind = {'_discard_conn': 'discard-disconnect-failure', '_transfer': 'transfer-disconnect-failure',
+                    '_disconnect': 'pruneall-disconnect-failure'}.get(cb['kind'], 'disconnect-failure')
+            self.fault_log.append((len(self.trace) - 1, kind))
             cb['fut'].set_exception(BackendError('disconnect failed'))
 
     def act_prune(self, db: str):
@@ -839,16 +844,14 @@ class Runner:
             i = rng.choice(old_c) if old_c else rng.randrange(len(ccb))
             x = rng.random()
             if fair:
-                if self.drain_fails < cfg.drain_fail_budget and x < cfg.p_cfail:
-                    self.drain_fails += 1
-                    return f'cdone {i} ' + ('3d' if rng.random() < cfg.p_3d else 'fail')
+                # liveness is stated AFTER THE LAST FAULT: the fair phase injects none
                 return f'cdone {i} ok'
             if x < cfg.p_cfail:
                 return f'cdone {i} ' + ('3d' if rng.random() < cfg.p_3d else 'fail')
             return f'cdone {i} ok'
         if k == 'ddone':
             i = rng.choice(old_d) if old_d else rng.randrange(len(dcb))
-            return f'ddone {i} ' + ('fail' if rng.random() < cfg.p_dfail else 'ok')
+            return f'ddone {i} ' + ('fail' if (not fair and rng.random() < cfg.p_dfail) else 'ok')
         if k == 'timer':
             return 'timer'
         if k == 'adv':
@@ -941,6 +944,7 @@ class Runner:
             'nconns': len(w.conns),
             'phantom': dict(w.phantom_blocks),
             'stuck_sig': stuck_signature(w, self.stuck) if self.stuck else None,
+            'faults': list(w.fault_log),
         }
         return res
 
@@ -1021,6 +1025,39 @@ def stuck_signature(w: World, stuck_ids) -> str:
             feats.add('idle-elsewhere')
     ticks = '+'.join(sorted(set(w.tick_log[-30:]))) or 'none'
     return ','.join(sorted(feats)) + ';ticks=' + ticks
+
+
+_FAULT_RE = __import__('re').compile(r'(cdone|ddone) (\d+) (fail|3d)$')
+
+
+def attribute_hang(cfg_dict, trace):
+    """Which injected faults does the hang DEPEND on?  Every fault action of the history is, in
+    turn (last first), replaced by a success; the replacement is kept when the fair, fault-free
+    continuation still hangs.  Returns (history with only the essential faults, their kinds,
+    the result of replaying it).  An empty list = the hang is a fault-free one."""
+    cur = list(trace)
+    res = run_trace(cfg_dict, cur, drain_seed=1, skip_invalid=True)
+    if not res['stuck']:
+        return cur, None, res
+    idxs = [i for i, a in enumerate(cur) if _FAULT_RE.match(a)]
+    for i in reversed(idxs):
+        m = _FAULT_RE.match(cur[i])
+        cand = cur[:i] + [f'{m.group(1)} {m.group(2)} ok'] + cur[i + 1:]
+        try:
+            r2 = run_trace(cfg_dict, cand, drain_seed=1, skip_invalid=True)
+        except Exception:
+            continue
+        if r2['stuck']:
+            cur, res = cand, r2
+    kinds = sorted({k for _i, k in res['faults']})
+    return cur, kinds, res
+
+
+def hang_key(res, kinds) -> str:
+    sig = res['stuck_sig']
+    if kinds and not sig.startswith('after-'):
+        return 'stuck:after-fault(' + '+'.join(kinds) + ');' + sig
+    return 'stuck:' + sig
 
 
 def describe(w: World) -> dict:
@@ -1349,7 +1386,69 @@ def gen_cfg(rng, i, ctx) -> Cfg:
         cfg.p_discard = 0.0
         cfg.gc = 120.0
         cfg.fifo = True
+    elif i % 19 == 11:
+        # a request queues behind the only connection of its database while the pool is full; the
+        # holder hands the connection back as broken and the DISCONNECT of that connection fails
+        cfg.shape = 'discard-fail'
+        cfg.ndb = rng.choice([1, 1, 2])
+        cfg.max = 1 if cfg.ndb == 1 else rng.choice([2, 3])
+        cfg.nreq = 8
+        cfg.pall = False
+        cfg.p_prune = 0.0
+        cfg.p_cfail = 0.0
+        cfg.p_3d = 0.0
+        cfg.p_dfail = 0.0
+        cfg.p_discard = 0.0
+        cfg.gc = 120.0
+        cfg.fifo = rng.random() < 0.7
     return cfg
+
+
+def _settle_all(r: 'Runner'):
+    """run everything that is ready, answer every callback positively"""
+    w = r.w
+    for _ in range(400):
+        if w.loop.ready_handles():
+            r.apply('run 0')
+        elif any(cb['resolved'] is None for cb in w.conn_cbs):
+            r.apply('cdone 0 ok')
+        elif any(cb['resolved'] is None for cb in w.disc_cbs):
+            r.apply('ddone 0 ok')
+        else:
+            return
+
+
+def scripted_discard_fail(r: 'Runner', rng, fail=True):
+    """prefix of the 'discard-fail' shape (see gen_cfg): returns after the failed disconnect"""
+    w, cfg = r.w, r.cfg
+    if cfg.ndb == 2:
+        # the other database takes max-1 connections and returns them idle (or keeps some lent)
+        for _ in range(cfg.max - 1):
+            r.apply('acq d1')
+            _settle_all(r)
+        for rq in list(w.reqs):
+            if rq.state == 'holding' and rng.random() < 0.7:
+                r.apply(f'rel {rq.id} 0')
+        _settle_all(r)
+    r.apply('acq d0')
+    _settle_all(r)
+    holder = next(q for q in w.reqs if q.db == 'd0' and q.state == 'holding')
+    for _ in range(rng.choice([1, 1, 2])):      # these queue: pool full, the block's connection is lent
+        r.apply('acq d0')
+        while w.loop.ready_handles():
+            r.apply('run 0')
+    r.apply(f'rel {holder.id} 1')
+    for _ in range(20):                          # until the disconnect callback of that connection is out
+        if any(cb['resolved'] is None and cb['conn'] is holder.conn for cb in w.disc_cbs):
+            break
+        if not w.loop.ready_handles():
+            break
+        r.apply('run 0')
+    dcb = [cb for cb in w.disc_cbs if cb['resolved'] is None]
+    for i, cb in enumerate(dcb):
+        if cb['conn'] is holder.conn:
+            r.apply(f'ddone {i} ' + ('fail' if fail else 'ok'))
+            break
 
 
 def scripted_idle_then_new(r: 'Runner', rng):
@@ -1399,6 +1498,10 @@ def one_schedule(seed_str, cfg: Cfg, with_tie=True):
     try:
         if getattr(cfg, 'shape', None) == 'idle-then-new':
             scripted_idle_then_new(r, rng)
+            cfg.fair_only = True
+            res = r.run_random(rng)
+        elif getattr(cfg, 'shape', None) == 'discard-fail':
+            scripted_discard_fail(r, rng, fail=rng.random() < 0.85)
             cfg.fair_only = True
             res = r.run_random(rng)
         elif getattr(cfg, 'pall', False):
@@ -1469,6 +1572,30 @@ def run_check(ctx: 'core.Ctx', which: str):
     distinct = set()
     others_seen = {}
     first_stuck = {}
+    stuck_runs = []
+    def absorb(label, cd, res):
+        detail_base = {'cfg': cd, 'trace': res['trace'], 'final': res['final'], 'case': label}
+        for (k, what, step) in res['problems']:
+            k2 = KEY_RENAME.get(k, k)
+            if k in mine or (k.startswith('task-exception:') and which == 'C16'):
+                if k2 not in seen_problem_keys:
+                    seen_problem_keys[k2] = label
+                    d = dict(detail_base)
+                    d['at_step'] = step
+                    d['trace'] = res['trace'][:step + 1]
+                    ctx.fail(k2, what, d)
+            if (k in other and k not in mine) or (k.startswith('task-exception:') and which == 'C15'):
+                others_seen[k2] = others_seen.get(k2, 0) + 1
+            if k not in mine and k not in other and not k.startswith('task-exception:'):
+                ctx.fail('unclassified:' + k, what, detail_base, no_input=True)
+        if which == 'C16':
+            hung = res['stuck'] or (res['waiting'] if not res['stuck'] else None)
+            if res['stuck']:
+                stuck_runs.append((cd, res, label))
+            elif res['waiting']:
+                ctx.fail('undecided:' + label, 'requests still waiting when the step budget ran out',
+                         detail_base, no_input=True)
+
     for label, cd, seed_str, trace in cases:
         cfg = Cfg.from_dict(dict(cd))
         if trace is None:
@@ -1509,46 +1636,7 @@ def run_check(ctx: 'core.Ctx', which: str):
         lines += tie.lines
         expect += tie.expect
         where += [(label, a, base) for a in tie.actions]
-        detail_base = {'cfg': cd, 'trace': res['trace'], 'final': res['final'], 'case': label}
-        for (k, what, step) in res['problems']:
-            k2 = KEY_RENAME.get(k, k)
-            if k in mine or (k.startswith('task-exception:') and which == 'C16'):
-                if k2 not in seen_problem_keys:
-                    seen_problem_keys[k2] = label
-                    d = dict(detail_base)
-                    d['at_step'] = step
-                    d['trace'] = res['trace'][:step + 1]
-                    ctx.fail(k2, what, d)
-            if (k in other and k not in mine) or (k.startswith('task-exception:') and which == 'C15'):
-                others_seen[k2] = others_seen.get(k2, 0) + 1
-            if k not in mine and k not in other and not k.startswith('task-exception:'):
-                ctx.fail('unclassified:' + k, what, detail_base, no_input=True)
-        if which == 'C16':
-            hung = res['stuck'] or (res['waiting'] if not res['stuck'] else None)
-            if res['stuck']:
-                sig = res['stuck_sig']
-                sigs[sig] = sigs.get(sig, 0) + 1
-                key = 'stuck:' + sig
-                if key not in first_stuck:
-                    first_stuck[key] = (cd, res, label)
-            elif res['waiting']:
-                ctx.fail('undecided:' + label, 'requests still waiting when the step budget ran out',
-                         detail_base, no_input=True)
-
-    # ---- hangs: shrink the first one of every class, then report
-    if which == 'C16':
-        for key, (cd, res, label) in first_stuck.items():
-            sig = res['stuck_sig']
-            small = res['trace']
-            if ctx._match_known(key) is None:
-                small = shrink(cd, res['trace'], lambda x: bool(x['stuck']) and x['stuck_sig'] == sig,
-                               drain_seed=1, max_tests=ctx.budget(250, 1500))
-            full = run_trace(cd, small, drain_seed=1, skip_invalid=True)
-            ctx.fail(key,
-                     f'requests {full["stuck"]} are never served although every holder released, every connect '
-                     f'succeeded and the timers kept firing (class: {sig}; fifo={cd.get("fifo")})',
-                     {'cfg': cd, 'trace': full['trace'], 'final': full['final'], 'case': label,
-                      'shrunk_prefix': len(small), 'seen_in_schedules': sigs[sig]})
+        absorb(label, cd, res)
 
     exh = None
     if not ctx.quick() and not ctx.replay:
@@ -1588,6 +1676,61 @@ def run_check(ctx: 'core.Ctx', which: str):
                      {'case': where[i][0], 'action': where[i][1], 'line': l, 'diff': diff,
                       'protocol_prefix': lines[base:i + 1][-40:],
                       'stream': 'real Pool vs EdbVerif.Pool.step (Driver/C15.lean)'}, no_input=True)
+    # ---- failing-input search after a correspondence break: the model no longer explains the
+    # code, so look for a history on which the PROPERTY fails — scripted fault shapes (whole
+    # capacity idle then new databases; discard + failing disconnect + queued waiter) and
+    # fault-heavy small random schedules, each driven to quiescence by the fault-free fair phase.
+    n_search = 0
+    if n_dis and not ctx.replay:
+        for j in range(ctx.budget(240, 2400)):
+            seed_str = f'{ctx.pid}:{ctx.seed}:search:{j}'
+            rr = _random.Random('cfg' + seed_str)
+            cfg = gen_cfg(rr, (5, 11, 11, 0)[j % 4], ctx)
+            if j % 4 == 3:
+                cfg.p_discard = 0.3
+                cfg.p_dfail = 0.4
+                cfg.pall = False
+            res, _t = one_schedule(seed_str, cfg, with_tie=False)
+            n_search += 1
+            absorb(f'search:{j}', cfg.as_dict(), res)
+        ctx.log(f'failing-input search: {n_search} extra schedules')
+
+    # ---- hangs.  Liveness oracle: AFTER THE LAST FAULT, under fair scheduling with succeeding
+    # connects/disconnects and timers that keep firing, every queued request is served.  A hang
+    # is attributed to the injected faults it depends on (attribute_hang), so a hang that needs a
+    # fault is never filed under a fault-free class; the first of every class is shrunk.
+    if which == 'C16':
+        for cd, res, label in stuck_runs:
+            kinds = []
+            if res['faults']:
+                _tr, kinds, res2 = attribute_hang(cd, res['trace'])
+                if kinds is None:
+                    kinds = []         # not reproducible from the trace alone: keep the observed class
+                else:
+                    res = dict(res2, trace=res2['trace'])
+            key = hang_key(res, kinds)
+            sigs[key[6:]] = sigs.get(key[6:], 0) + 1
+            if key not in first_stuck:
+                first_stuck[key] = (cd, res, label, kinds)
+        for key, (cd, res, label, kinds) in first_stuck.items():
+            sig = res['stuck_sig']
+            small = res['trace']
+            if ctx._match_known(key) is None:
+                small = shrink(cd, res['trace'],
+                               lambda x: bool(x['stuck']) and x['stuck_sig'] == sig and
+                               set(kinds) <= {k for _i, k in x['faults']},
+                               drain_seed=1, max_tests=ctx.budget(250, 1500))
+            full = run_trace(cd, small, drain_seed=1, skip_invalid=True)
+            last_fault = max((i for i, _k in full['faults']), default=None)
+            ctx.fail(key,
+                     f'requests {full["stuck"]} are never served although, after the last injected fault '
+                     f'({"action %d: %s" % (last_fault, "+".join(kinds)) if kinds else "none in this history"}), '
+                     f'every holder released, every connect/disconnect succeeded and the timers kept firing '
+                     f'(class: {key[6:]}; fifo={cd.get("fifo")})',
+                     {'cfg': cd, 'trace': full['trace'], 'final': full['final'], 'case': label,
+                      'faults_the_hang_depends_on': kinds, 'fault_actions': full['faults'],
+                      'shrunk_prefix': len(small), 'seen_in_schedules': sigs[key[6:]]})
+
     if not proved:
         ctx.proof_broken_verdict()
 
@@ -1608,6 +1751,7 @@ def run_check(ctx: 'core.Ctx', which: str):
         'model_invariant_clause_violations': inv_viol,
         'requests': outcomes,
         'hang_classes': sigs,
+        'failing_input_search_schedules': n_search,
         'oracle_keys_of_the_sibling_property_seen': others_seen,
         'exhaustive': bool(exh) and all(x['exhausted'] for x in exh),
         'exhaustive_scopes': exh,
